@@ -42,7 +42,7 @@ TRUSTED_BASE = [
 ]
 ASSUMPTIONS = [
     "scalars are signed representatives in Z; arith.extsi keeps the representative (valid for in-range operands of verified IR)",
-    "recognise_sound takes well_typed k (argtys b) as hypothesis (the recognised body is valid IR: equal operand types for add/mul, widening extsi)",
+    "recognise_sound_typed assumes the recognised body is valid IR (body_typed: equal operand types for add/mul/sub, widening extsi, yielded type = output type); L1 checks body_typed on every verified generated body",
     "arith overflow flags / poison are not modelled; only add/mul/sub/extsi (+ trunci/shrsi/minsi/maxsi for the rescale expansion)",
     "the '_stream' suffix of library_call (static shapes on a streamer accelerator) is not modelled; only the chosen accelerator",
     "golden model of the rescale = util/gemmx/simd_golden_model.py on an int64 input array (numpy semantics modelled by hand: int32 casts wrap)",
@@ -393,8 +393,11 @@ def kernel_cfgs(ctx):
     cfgs = []
     for w in WIDTHS:
         cfgs += [("mul", [w, w, w]), ("add", [w, w, w]), ("mac", [w, w, w])]
-    for a, c in itertools.combinations(WIDTHS, 2):
-        cfgs.append(("mac", [a, a, c]))
+    for a in WIDTHS:
+        for b in WIDTHS:
+            for c in WIDTHS:
+                if a < c and b < c:
+                    cfgs.append(("mac", [a, b, c]))
     for a in WIDTHS:
         for b in WIDTHS:
             for c in WIDTHS:
@@ -590,7 +593,7 @@ def correspondence(ctx):
         ctx.count({"L1": "recognise", "body": b, "real": k}, k is not None, json.dumps(b), "recognise-" + (k or "none"))
     SH = 400
     texts = [HEADER + f"Definition cases : list (body * option kernel) := {coqlist(cases[s:s + SH])}.\n"
-             "Eval vm_compute in failing (fun c : body * option kernel => optk_eqb (recognise (fst c)) (snd c)) cases.\n"
+             "Eval vm_compute in failing (fun c : body * option kernel => body_typed (fst c) && optk_eqb (recognise (fst c)) (snd c)) cases.\n"
              for s in range(0, len(cases), SH)]
     # (2) expansion
     cfgs = kernel_cfgs(ctx)
